@@ -645,6 +645,19 @@ pub fn c18(ctx: &mut Ctx, tier: &str, seed: u64) {
             }
         }
     }
+    // multi-byte characters next to separators and dots: every UTF-8 operation under catch_unwind
+    let u8d = gen::utf8_dom(tier, seed);
+    let aa: Vec<&str> = vec!["", "x", "é", "a.é"];
+    for (i, s) in u8d.iter().enumerate() {
+        let st = std::str::from_utf8(s).unwrap();
+        for win in [false, true] {
+            let a = aa[(i + win as usize) % aa.len()];
+            ctx.case(s.iter().any(|b| *b >= 0x80), (win, s, a, 7u8));
+            if t_utf8(win, st, a).iter().any(|l| l == "PANIC") || t_typed8(win, st, a).iter().any(|l| l == "PANIC") {
+                ctx.fail("panic-utf8", None, format!("setext {} {} {}", gen::e(win), hex(s), hex(a.as_bytes())), format!("some UTF-8 operation panicked on \"{}\" with argument \"{}\"", st, a));
+            }
+        }
+    }
     ctx.sample("w:dotdot 65536 bytes x every operation".into());
     ctx.sample(format!("comps u {}", hex(b"//././/")));
 }
